@@ -375,6 +375,10 @@ def run(prog: Program, res: Result, tier: str) -> None:
                 res.bad("R5", m, n, f"{m.name} modifies the cube in place outside the update methods", key=key)
     res.trusted_base += ["np.roll(x, s) is a cyclic permutation of x; rotations compose additively modulo nbins"]
     res.assumptions += ["replace_nan is a documented non-rotation mutation and is outside the property's update sequences"]
+    # ---- R2 (cont.) the DM steps are computed by params.compute_dmdelays: its law, constant, rounding and shape rules (C09.R2) --------
+    from ..report import depends
+    depends(res, "R2", prog, tier, "C09", accept=lambda o: "compute_dmdelays" in (o.where or ""),
+            why="update_dm rotates by compute_dmdelays(subband freqs, dm - ref_dm): C09's rules for that function are re-evaluated here")
     # ---- R4 (cont.) the step arrays have one entry per index of the axis they are indexed with, also when that axis has length 1:
     # no unqualified squeeze where the DM steps come from (F34: a one-sub-band cube got a 0-d step array) ----------------------
     from ..lints import check_no_bare_squeeze
